@@ -153,7 +153,7 @@ def run(tier):
         # G1c: the tracer branches on the SHAPE of what it walks (discriminants of Gc-bearing values, emptiness /
         # iteration of containers), never on plain data: a visit that depends on a flag or a counter makes
         # reachability depend on run state, and an object referenced only from the skipped field is reclaimed
-        ck.rule("G1c.trace-unconditional", "every branch in the tracer tests the shape of a Gc-bearing value; no visit is conditional on plain data", floor=40)
+        ck.rule("G1c.trace-unconditional", "every branch in the tracer tests the shape of a Gc-bearing value; no visit is conditional on plain data", floor=15)
         SHAPE_CALLS = ("::is_empty", "::len", "::is_some", "::is_none", "::next", "::is_null")
         for p in sorted(reach):
             if p not in fx.fns:
